@@ -282,6 +282,12 @@ int main(int argc, char **argv) {
         CPU_SET(cpu, &cs);
         sched_setaffinity(0, sizeof cs, &cs);
     }
+    if (mode == "info") {
+        std::string s = std::string("{\"id\":\"") + g_h->id + "\",\"title\":\"" + mj::esc(g_h->title) + "\",\"rule\":\"" + mj::esc(g_h->rule) +
+                        "\",\"real\":\"" + mj::esc(g_h->real_components) + "\",\"stubbed\":\"" + mj::esc(g_h->stubbed_components) + "\"}";
+        puts(s.c_str());
+        return 0;
+    }
     if (mode == "gen") {
         sim::Plan p;
         g_h->gen(seed, tier, p);
@@ -328,6 +334,21 @@ int main(int argc, char **argv) {
             }
         }
         print_summary();
+        return 0;
+    }
+    if (mode == "hashes") {
+        // determinism self-test support: one line per seed with the event-log and choice-stream hashes
+        g_mode = 3;
+        for (uint64_t i = start; i < count; i++) {
+            uint64_t s = sim::mix64(base, i);
+            g_cur_seed = s; g_cur_idx = i;
+            sim::Plan p;
+            g_h->gen(s, tier, p);
+            RunInfo ri = run_one(p);
+            printf("H %llu %llu %llu %llu\n", (unsigned long long)i, (unsigned long long)ri.st.event_hash, (unsigned long long)ri.st.choice_hash,
+                   (unsigned long long)ri.case_fp);
+        }
+        fflush(stdout);
         return 0;
     }
     if (mode == "serve") {
